@@ -110,6 +110,20 @@ def use_closure(scope):
     return seen
 
 
+def site_module(scope):
+    return scope.chain()[-1]
+
+
+def whole_renames(scope):
+    """(local, remote, Use) of every `use m, local => remote` (no ONLY) on the scope chain of the site and in the modules of its USE closure"""
+    out = []
+    for s in list(scope.chain()) + use_closure(scope):
+        for u in s.uses:
+            for l, r in getattr(u, "renames", []) or []:
+                out.append((l, r, u))
+    return out
+
+
 def site_scope(w, occ):
     best = None
     for s in w.scopes:
@@ -229,6 +243,18 @@ def run_case(ctx, i, rng):
                     vis_here = M.visible(sc)
                     if any(vis_here.get(o.ent.tdef.name) is not o.ent.tdef for o in base):
                         key = "member:declared-type-not-visible-under-its-own-name-at-site"
+                if key.startswith("definition:") and sc is not None:
+                    # `use m, local => remote` without ONLY: resolved when the module is used directly by the scope; the alias is not exported
+                    # further, and the remote name is not hidden
+                    wren = whole_renames(sc)
+                    if outcome == "null" and (occ.name.lower() in {l.lower() for l, r_, u_ in wren}
+                                              or any(M.exports(u_.mod).get(r_) is occ.ent and occ.ent.module() is not site_module(sc) for l, r_, u_ in wren if sc.chain()[-1] is not u_.mod)
+                                              and occ.name.lower() != occ.ent.name.lower()):
+                        key = "use-tree:rename-without-only:alias-not-visible-through-other-modules"
+                    elif outcome in ("wrong-file", "wrong-line") and got is not None:
+                        g = entity_at(w, got)
+                        if g is not None and any(r_.lower() == occ.name.lower() and M.exports(u_.mod).get(r_) is g for l, r_, u_ in wren):
+                            key = "use-tree:rename-without-only:remote-name-not-hidden"
                 if outcome in ("wrong-file", "wrong-line", "null") and key.startswith("definition:") and sc is not None \
                         and any(v == "private" for m in use_closure(sc) for v in m.reexport_vis.values()):
                     # some module on the USE closure of the site hides a use-associated name with a PRIVATE statement, which the USE tree ignores
